@@ -150,9 +150,17 @@ def siunitx_format_unit(
         # TODO: fix this to be fore efficient and detect also aliases.
         for p in registry._prefixes.values():
             p = str(p.name)
-            if len(p) > 0 and unit.find(p) == 0:
+            rest = unit[len(p) :]
+            # strip a prefix only when what remains is itself a unit of the registry
+            if (
+                len(p) > 0
+                and unit.find(p) == 0
+                and rest in registry._units
+                and registry._units[rest].name == rest
+            ):
                 prefix = p
-                unit = unit.replace(prefix, "", 1)
+                unit = rest
+                break
 
         if power < 0:
             lpick.append(r"\per")
